@@ -2,7 +2,7 @@
    Tactics do not depend on the shape of the regenerated terms: tables by computation, tensor identities by
    case analysis on the indices then reflexivity / ring / field, with the side conditions of field discharged from
    the hypotheses E_i <> 0 and (compliance determinant polynomial) <> 0 by a search for the monomial factor. *)
-From Coq Require Import Reals List String Bool Arith Lia Lra Nsatz.
+From Coq Require Import Reals List String Bool Arith Lia Lra.
 From C28 Require Import C28Spec C28_gen.
 Import ListNotations.
 Local Open Scope R_scope.
@@ -54,8 +54,8 @@ Proof.
   - destruct r as [a|], (option_map hcode (name_to_hyp s)) as [k|]; try discriminate; [|reflexivity].
     apply Nat.eqb_eq in H2. now subst.
 Qed.
-Lemma probes_cover_names h : exists b r, In (doc_name h, b, r) probe_dump.
-Proof. destruct h; vm_compute; do 2 eexists; tauto. Qed.
+Lemma probes_cover_names h : existsb (fun p => String.eqb (fst (fst p)) (doc_name h)) probe_dump = true.
+Proof. destruct h; vm_compute; reflexivity. Qed.
 
 (* which pairs the headers provide *)
 Definition support_of (h : hyp) (c : conv) : option (bool * bool * bool * bool) :=
@@ -103,28 +103,34 @@ Qed.
 (* stress-free expansion: the diagonal of the 3D tensor seen in the frame of the hypothesis *)
 Lemma sfe_permutes h c : doc_supported h c = true ->
   exists f, sfe_code (hcode h) (ccode c) = Some f /\
-    forall e : list R, forall i, (i < 3)%nat -> nth i (f e) 0 = nth (pcomp h c i) e 0.
+    forall e : list R, forall i, (i < 3)%nat -> (nth i (f e) 0%R = nth (pcomp h c i) e 0%R).
 Proof.
   destruct h, c; intro Hs; try discriminate Hs; eexists; (split; [reflexivity|]);
     intros e i Hi; cases_lt i Hi; cbn; reflexivity.
 Qed.
 
-(* restricts implies identical in-plane responses, for any pair of tensors *)
+(* restricts implies identical in-plane responses, for any pair of tensors: one proof per (size, component map) *)
+Ltac response_gen n :=
+  intros Hr s Hs i Hi; unfold restricts_gen in Hr; cbn in Hs, Hi;
+  repeat (destruct s as [|? s]; [discriminate Hs|]); (destruct s; [|discriminate Hs]);
+  cases_lt i Hi; unfold matvec, embed_gen, entry; cbn;
+  repeat match goal with
+         | |- context [nth ?k ?m2 0] =>
+           match type of Hr with context [entry _ m2 _ _ = _] => idtac end;
+           let E := fresh "E" in
+           assert (E : nth k m2 0 = entry n m2 (k / n) (k mod n)) by reflexivity; rewrite E, Hr by (cbn; lia); clear E
+         end; unfold entry; cbn; ring.
+Lemma response3 m2 m3 : restricts_gen 3 (pcomp AGPStrain Default) m2 m3 -> same_response_gen 3 (pcomp AGPStrain Default) m2 m3.
+Proof. response_gen 3%nat. Qed.
+Lemma response4 m2 m3 : restricts_gen 4 (pcomp Axis Default) m2 m3 -> same_response_gen 4 (pcomp Axis Default) m2 m3.
+Proof. response_gen 4%nat. Qed.
+Lemma response4s m2 m3 : restricts_gen 4 (pcomp PStress Pipe) m2 m3 -> same_response_gen 4 (pcomp PStress Pipe) m2 m3.
+Proof. response_gen 4%nat. Qed.
+Lemma response6 m2 m3 : restricts_gen 6 (pcomp Tri Default) m2 m3 -> same_response_gen 6 (pcomp Tri Default) m2 m3.
+Proof. response_gen 6%nat. Qed.
 Lemma restricts_response h c m2 m3 : restricts h c m2 m3 -> same_response h c m2 m3.
 Proof.
-  intros Hr s Hs i Hi.
-  assert (Hall : forall a b, (a < doc_ssize h)%nat -> (b < doc_ssize h)%nat ->
-                   entry (doc_ssize h) m2 a b = entry 6 m3 (pcomp h c a) (pcomp h c b)) by exact Hr.
-  destruct h, c; cbn in Hs, Hi, Hall;
-    repeat (destruct s as [|? s]; [discriminate Hs|]); (destruct s; [|discriminate Hs]);
-    cases_lt i Hi; cbn;
-    repeat match goal with
-           | |- context [nth ?k m2 0] =>
-             let E := fresh "E" in
-             first [ (assert (E : nth k m2 0 = entry 3 m2 (k / 3) (k mod 3)) by reflexivity; rewrite E, Hall by (cbn; lia); clear E)
-                   | (assert (E : nth k m2 0 = entry 4 m2 (k / 4) (k mod 4)) by reflexivity; rewrite E, Hall by (cbn; lia); clear E)
-                   | (assert (E : nth k m2 0 = entry 6 m2 (k / 6) (k mod 6)) by reflexivity; rewrite E, Hall by (cbn; lia); clear E) ]
-           end; cbn; ring.
+  destruct h, c; first [exact (response3 m2 m3) | exact (response4 m2 m3) | exact (response4s m2 m3) | exact (response6 m2 m3)].
 Qed.
 
 (* ---- orthotropic stiffness: rational functions of the data *)
@@ -148,8 +154,8 @@ Ltac nz_mono x1 x2 x3 P :=
   | |- ?q <> 0 =>
     let go m := (first [ replace q with (m * P) by ring | replace q with (- (m * P)) by ring | replace q with m by ring
                        | replace q with (- m) by ring ];
-                 repeat first [ apply Ropp_neq_0_compat | apply Rmult_integral_contrapositive_currified | apply nz_pow ];
-                 assumption) in
+                 repeat first [ apply nz_pow | apply Ropp_neq_0_compat | apply Rmult_integral_contrapositive_currified ];
+                 first [assumption | lra]) in
     first [ go (x1 ^ 0 * x2 ^ 0 * x3 ^ 0) | go (x1 ^ 0 * x2 ^ 0 * x3 ^ 1) | go (x1 ^ 0 * x2 ^ 1 * x3 ^ 0) | go (x1 ^ 1 * x2 ^ 0 * x3 ^ 0)
           | go (x1 ^ 0 * x2 ^ 1 * x3 ^ 1) | go (x1 ^ 1 * x2 ^ 0 * x3 ^ 1) | go (x1 ^ 1 * x2 ^ 1 * x3 ^ 0) | go (x1 ^ 1 * x2 ^ 1 * x3 ^ 1)
           | go (x1 ^ 0 * x2 ^ 0 * x3 ^ 2) | go (x1 ^ 0 * x2 ^ 2 * x3 ^ 0) | go (x1 ^ 2 * x2 ^ 0 * x3 ^ 0)
@@ -158,18 +164,7 @@ Ltac nz_mono x1 x2 x3 P :=
           | go (x1 ^ 2 * x2 ^ 1 * x3 ^ 1) | go (x1 ^ 0 * x2 ^ 2 * x3 ^ 2) | go (x1 ^ 2 * x2 ^ 0 * x3 ^ 2) | go (x1 ^ 2 * x2 ^ 2 * x3 ^ 0)
           | go (x1 ^ 1 * x2 ^ 2 * x3 ^ 2) | go (x1 ^ 2 * x2 ^ 1 * x3 ^ 2) | go (x1 ^ 2 * x2 ^ 2 * x3 ^ 1) | go (x1 ^ 2 * x2 ^ 2 * x3 ^ 2) ]
   end.
-(* fallback: Nullstellensatz certificate with inverse witnesses *)
-Ltac nz_nsatz :=
-  match goal with
-  | |- ?q <> 0 =>
-    let Hq := fresh "Hq" in
-    intro Hq;
-    repeat match goal with
-           | H : ?x <> 0 |- _ => let i := fresh "i" in let Hi := fresh "Hi" in destruct (inv_wit x H) as [i Hi]; clear H
-           end;
-    let Hf := fresh "Hf" in assert (Hf : 1 = 0) by (timeout 120 nsatz); lra
-  end.
-Ltac nz x1 x2 x3 P Q := first [assumption | nz_mono x1 x2 x3 P | nz_mono x1 x2 x3 Q | nz_mono x1 x2 x3 (P * Q) | nz_nsatz].
+Ltac nz x1 x2 x3 P Q := first [assumption | nz_mono x1 x2 x3 P | nz_mono x1 x2 x3 Q | nz_mono x1 x2 x3 (P * Q)].
 Ltac rat_entry x1 x2 x3 P Q :=
   cbn; first [reflexivity | ring | (field; repeat split; nz x1 x2 x3 P Q)].
 
@@ -188,10 +183,9 @@ Section Stiffness.
     exists f3, stiffU_code (hcode Tri) (ccode Default) = Some f3 /\ restricts h c (app f o) (app f3 o).
   Proof.
     destruct o as [e1 e2 e3 v12 v23 v13 g12 g23 g13]. unfold compliance_det in Hdet. cbn in HE1, HE2, HE3, Hdet.
-    set (P := e1 * e2 - 2 * v12 * v13 * v23 * e2 * e3 - v23 * v23 * e1 * e3 - v13 * v13 * e2 * e3 - v12 * v12 * e2 * e2) in *.
     destruct h, c; intros Hs Hf; try discriminate Hs; cbn in Hf; try discriminate Hf; injection Hf as <-;
       eexists; (split; [reflexivity|]); intros i j Hi Hj; cases_lt i Hi; cases_lt j Hj; subst app;
-      rat_entry e1 e2 e3 P P.
+      match type of Hdet with ?P <> 0 => rat_entry e1 e2 e3 P P end.
   Qed.
 
   (* the 3D stiffness is symmetric and is the inverse of the documented compliance on the normal block *)
@@ -205,14 +199,13 @@ Section Stiffness.
     (forall i j, (i < 6)%nat -> (j < 6)%nat -> (3 <= i \/ 3 <= j)%nat -> i <> j -> entry 6 (app f3 o) i j = 0).
   Proof.
     destruct o as [e1 e2 e3 v12 v23 v13 g12 g23 g13]. unfold compliance_det in Hdet. cbn in HE1, HE2, HE3, Hdet.
-    set (P := e1 * e2 - 2 * v12 * v13 * v23 * e2 * e3 - v23 * v23 * e1 * e3 - v13 * v13 * e2 * e3 - v12 * v12 * e2 * e2) in *.
-    eexists; split; [reflexivity|]. subst app. repeat split.
-    - intros i j Hi Hj; cases_lt i Hi; cases_lt j Hj; rat_entry e1 e2 e3 P P.
-    - intros i k Hi Hk; cases_lt i Hi; cases_lt k Hk; rat_entry e1 e2 e3 P P.
+    eexists; split; [reflexivity|]. subst app. split; [|split; [|split; [|split; [|split]]]].
+    - intros i j Hi Hj; cases_lt i Hi; cases_lt j Hj; match type of Hdet with ?P <> 0 => rat_entry e1 e2 e3 P P end.
+    - intros i k Hi Hk; cases_lt i Hi; cases_lt k Hk; match type of Hdet with ?P <> 0 => rat_entry e1 e2 e3 P P end.
     - cbn; ring.
     - cbn; ring.
     - cbn; ring.
-    - intros i j Hi Hj Hij Hne; cases_lt i Hi; cases_lt j Hj; try (exfalso; lia); rat_entry e1 e2 e3 P P.
+    - intros i j Hi Hj Hij Hne; cases_lt i Hi; cases_lt j Hj; try (exfalso; lia); match type of Hdet with ?P <> 0 => rat_entry e1 e2 e3 P P end.
   Qed.
 
   (* ALTERED plane-stress stiffness = condensation of the unaltered one of the same (hypothesis, convention) on the
@@ -228,12 +221,10 @@ Section Stiffness.
          entry 4 (app fa o) i j = 0).
   Proof.
     destruct o as [e1 e2 e3 v12 v23 v13 g12 g23 g13]. unfold compliance_det in Hdet. cbn in HE1, HE2, HE3, Hdet.
-    set (P := e1 * e2 - 2 * v12 * v13 * v23 * e2 * e3 - v23 * v23 * e1 * e3 - v13 * v13 * e2 * e3 - v12 * v12 * e2 * e2) in *.
     destruct c; intros Hs Hf Hq; try discriminate Hs; cbn in Hf; try discriminate Hf; injection Hf as <-;
       unfold inplane_minor in Hq; cbn in Hq;
-      match type of Hq with ?q <> 0 => set (Q := q) in * end;
       eexists; (split; [reflexivity|]); subst app; repeat split.
-    all: try (intros i j Hi Hj; cases_lt i Hi; cases_lt j Hj; rat_entry e1 e2 e3 P Q).
+    all: try (intros i j Hi Hj; cases_lt i Hi; cases_lt j Hj; match type of Hdet with ?P <> 0 => match type of Hq with ?Q <> 0 => rat_entry e1 e2 e3 P Q end end).
     all: try (cbn; ring).
     all: try (intros i j Hi Hj Hc; cases_lt i Hi; cases_lt j Hj; try (exfalso; lia); cbn; reflexivity).
   Qed.
